@@ -183,8 +183,8 @@ class Check:
 
     # ---------------------------------------------------------------- decision
     def finish(self) -> int:
-        REPLAYS.mkdir(exist_ok=True)
-        EVIDENCE.mkdir(exist_ok=True)
+        REPLAYS.mkdir(parents=True, exist_ok=True)
+        EVIDENCE.mkdir(parents=True, exist_ok=True)
         rc = 0
         for key in sorted(self.known_seen):
             f = self.known["known"][key]
